@@ -151,9 +151,15 @@ macro_rules! harnesses {
             v.voted.set(voted0);
             kani::cover!(voted0, "COV drop_with_outstanding_vote");
             kani::cover!(!voted0, "COV drop_never_voted");
+            let cw = Arc::new(CountWake(AtomicUsize::new(0)));
+            let waker = Waker::from(cw.clone());
+            rx.inner.waker.register(&waker);
+            kani::cover!(!voted0 && f0 == all ^ flag, "COV drop_is_the_completing_vote");
             drop(v);
             let f1 = rx.inner.flags.load(O::SeqCst);
             assert!(f1 == f0 | flag, "OBL drop::counts_as_vote");
+            // if the disappearing party was the last one missing, the waiting receiver must be woken
+            assert!(!(f0 == all ^ flag) || cw.0.load(O::SeqCst) >= 1, "OBL drop::completing_drop_wakes_receiver");
             std::mem::forget(it);
         }
 
